@@ -81,7 +81,9 @@ def construction_family(res, tier, part=None):
         for a, cells, vals in c01.rowscan_arrays(tuple(cfg["shape"]), cfg["k"], emb, cfg["dup"]):
             many = {v: v for v in emb}
             many[emb[2]] = emb[1]
-            for mk, mapping in (("none", None), ("many", many)):
+            onto = {v: v for v in emb}
+            onto[emb[1]] = emb[0]       # a rare value mapped onto the dominant one: two inputs share the common output
+            for mk, mapping in (("none", None), ("many", many), ("onto-common", onto)):
                 for common in (None, emb[0], emb[6]):
                     for uc in (False, True):
                         one(a, common, countsof(a) if uc else None, mapping,
